@@ -29,7 +29,8 @@ func routerSpecs(e *Env, family string, n int, typed bool) []PkgSpec {
 	return collect(e, family, n, func(t *rapid.T) PkgSpec {
 		c := specgen.NewCtx(t, disabled)
 		bf := rapid.SampledFrom(forms).Draw(t, "baseform")
-		d := c.RouterDoc(specgen.RouterOpts{Typed: typed})
+		// (every method a path item can declare is an operation like any other)
+		d := c.RouterDoc(specgen.RouterOpts{Typed: typed, Methods: []string{"GET", "POST", "DELETE", "PUT", "PATCH", "HEAD", "OPTIONS", "TRACE"}})
 		d.Servers = bf.Servers
 		return PkgSpec{Doc: d, Cfg: inproc.Config{BasePath: bf.Flag, DoNotEdit: true}, Meta: map[string]any{"baseform": bf.Name}}
 	})
